@@ -1,29 +1,47 @@
 #!/usr/bin/env python3-vt
-"""tools/reeval_benign.py [id ...]: re-evaluate all rules against each filed behaviour-preserving refactoring (scratch worktree of /repo HEAD + patch); all must be silent"""
-import importlib.util, json, os, shutil, subprocess, sys, tempfile
+"""tools/reeval_benign.py [id ...]: re-evaluate all rules against each filed behaviour-preserving refactoring (scratch copy of /repo/netqasm + patch, 16 workers); all must be silent"""
+import json, os, shutil, subprocess, sys, tempfile
+from concurrent.futures import ProcessPoolExecutor
 ROOT = os.path.dirname(os.path.dirname(os.path.abspath(__file__)))
 sys.path.insert(0, ROOT)
-spec = importlib.util.spec_from_file_location("intake_benign", os.path.join(ROOT, "tools", "intake_benign.py"))
-ib = importlib.util.module_from_spec(spec); spec.loader.exec_module(ib)
-ids = sys.argv[1:] or sorted(os.listdir(os.path.join(ROOT, "benign")))
-noisy = 0
-for bid in ids:
+
+
+def one(bid):
+    from nqsa.cli import evaluate, CLAIMED
+    from nqsa import report
     d = os.path.join(ROOT, "benign", bid)
     if not os.path.exists(os.path.join(d, "patch.diff")):
-        continue
+        return None
     meta = json.load(open(os.path.join(d, "meta.json")))
-    scratch = tempfile.mkdtemp(prefix="rebenign-"); os.rmdir(scratch)
-    subprocess.check_call(["git", "-C", "/repo", "worktree", "add", "-q", "--detach", scratch, "HEAD"])
+    scratch = tempfile.mkdtemp(prefix="rebenign-")
     try:
-        rc = subprocess.call(["git", "apply", os.path.join(d, "patch.diff")], cwd=scratch)
-        if rc != 0:
-            print(f"{bid}: patch no longer applies to HEAD (skipped)")
-            continue
-        fired, errors = ib.evaluate_all(scratch)
+        shutil.copytree("/repo/netqasm", os.path.join(scratch, "netqasm"), ignore=shutil.ignore_patterns("__pycache__", "*.pyc"))
+        r = subprocess.run(["git", "apply", "--exclude=demo.py", os.path.join(d, "patch.diff")], cwd=scratch, capture_output=True, text=True)
+        if r.returncode != 0:
+            return (bid, None, "patch no longer applies to HEAD (skipped)")
+        fired, errors = {}, {}
+        for p in CLAIMED:
+            ctx = evaluate(p, "quick", root=scratch)
+            v, k = report.classify(ctx)
+            if v:
+                fired[p] = [f"{x.rule} {x.construct}" for x in v]
+            if ctx.errors:
+                errors[p] = ctx.errors
         meta["checks_fired"], meta["checks_errors"], meta["silent"] = fired, errors, not fired and not errors
         json.dump(meta, open(os.path.join(d, "meta.json"), "w"), indent=1)
-        noisy += not meta["silent"]
-        print(f"{bid}: silent={meta['silent']} fired={ {k: v[:2] for k, v in fired.items()} } errors={ {k: v[0][:100] for k, v in errors.items()} }")
+        return (bid, meta["silent"], f"fired={ {k: v[:2] for k, v in fired.items()} } errors={ {k: v[0][:100] for k, v in errors.items()} }")
     finally:
-        subprocess.call(["git", "-C", "/repo", "worktree", "remove", "--force", scratch]); shutil.rmtree(scratch, ignore_errors=True)
-print("refactorings with an alarm:", noisy)
+        shutil.rmtree(scratch, ignore_errors=True)
+
+
+if __name__ == "__main__":
+    ids = sys.argv[1:] or sorted(os.listdir(os.path.join(ROOT, "benign")))
+    noisy = 0
+    with ProcessPoolExecutor(max_workers=16) as ex:
+        for res in ex.map(one, ids):
+            if res is None:
+                continue
+            bid, silent, detail = res
+            noisy += silent is False
+            print(f"{bid}: silent={silent} {detail}")
+    print("refactorings with an alarm:", noisy)
